@@ -388,7 +388,7 @@ FUNC_BASES = [
 
 SHAPE_SETS_1 = [["xyoz"], ["face"], ["edge"], ["eval"]]
 SHAPE_SETS_2 = [list(p) for p in itertools.permutations(
-    ["xyoz", "face", "edge", "eval"], 2)]
+    ["xyoz", "face", "edge", "eval"], 2) if "eval" in p or "xyoz" in p]
 
 
 def _func_choices(spaces, opsets):
@@ -638,11 +638,10 @@ def families(tier):
     thorough = tier == "thorough"
     fams = {}
     if thorough:
-        fams["seq"] = _uniq(fam_seq(SEQ_ALPHABET_QUICK, 3)
-                            + fam_seq(SEQ_ALPHABET_THOROUGH, 3)
-                            + fam_seq(SEQ_ALPHABET_QUICK[:3]
-                                      + SEQ_ALPHABET_QUICK[3:7:2]
-                                      + SEQ_ALPHABET_QUICK[7:], 4))
+        fams["seq"] = _uniq(fam_seq(SEQ_ALPHABET_THOROUGH, 3)
+                            + fam_seq(SEQ_ALPHABET_QUICK[:1]
+                                      + SEQ_ALPHABET_QUICK[3:4]
+                                      + SEQ_ALPHABET_QUICK[7:12], 4))
         fams["single"] = fam_single(COMPANIONS)
     else:
         fams["seq"] = _uniq(fam_seq(SEQ_ALPHABET_QUICK, 2)
